@@ -39,7 +39,9 @@ CLAIMED.update({
               "zero max_time / sample_count / sample_size returns before any call (BenchOptions::has_samples and initial_mode under "
               "contract); in bench mode every round records T samples of s calls, the remaining-sample counter is n - T*rounds saturating, "
               "the loop stops at the least round at which the rule says stop, and a lemma concludes: with no time limit reached, exactly "
-              "ceil(n/T) rounds, T*ceil(n/T) samples, s*T*ceil(n/T) calls. Canary files (assert(false) at six program points) must fail."),
+              "ceil(n/T) rounds, T*ceil(n/T) samples, s*T*ceil(n/T) calls. Canary files (assert(false) at five program points) must fail. Kani "
+              "(bounded): run_bench_entry runs every thread count of a list of two with a FRESH BenchContext, the loop's precondition, so the "
+              "samples / iters figures of a row are its own."),
         note=LOOP_NOTE,
         technique="Verus loop invariants over a ghost history on the extracted sampling loop; Kani complete harnesses for the helpers",
         design_ref="5 C03"),
@@ -96,14 +98,16 @@ CLAIMED.update({
         technique="Verus contract + arithmetic lemmas on extracted code; Kani complete harnesses",
         design_ref="5 C11"),
     "C13": dict(
-        category="model_checking",
-        text=("Bounded Kani harnesses on the real code: FilterSet::include/exclude/is_match over up to 5 filters in any insertion order with "
-              "symbolic per-filter verdicts implement the rule (no skip filter matches, and no positive filters or one matches); "
-              "SplitVec::insert keeps skip entries before the split for every order; Filter::Exact is whole-string equality; "
-              "EntryTree::retain on a small tree asks exactly the paths m::a, m::b::1, m::b::22 once each, decides per case and prunes empty "
-              "parents. No unbounded proof: iterator adapters, raw pointers and format! are outside Verus."),
-        note="Regex semantics (regex-lite), CLI-to-filter plumbing and larger trees are undecided. All units are bounded stand-ins.",
-        technique="bounded Kani harnesses (bounded stand-in only)",
+        category="proof",
+        text=("Verus proves on the extracted FilterSet::is_match, for EVERY filter set (no bound): the result is exactly the rule - no skip "
+              "filter matches, and there are no positive filters or at least one matches - over the skip entries before the split index and "
+              "the positive ones after it (the iterator expression `.iter().position(..)` is pinned and replaced by an assumed 'first matching "
+              "index' contract). Kani: SplitVec::insert keeps skip entries before the split for every order of up to 5 inserts and "
+              "Filter::Exact is whole-string equality (bounded, quick); thorough tier: the rule again on up to 3 real filters, and "
+              "EntryTree::retain on a small tree (per-case decision, pruning of empty parents, path text parent::child[::arg])."),
+        note=("Regex semantics (regex-lite), CLI-to-filter plumbing are undecided. The tree side (EntryTree::retain) is only bounded and only in "
+              "the thorough tier (20+ min per harness): a change confined to retain is NOT detected by the quick tier."),
+        technique="Verus contract on extracted FilterSet::is_match with a pinned stand-in; bounded Kani harnesses",
         design_ref="5 C13"),
     "C15": dict(
         category="proof",
@@ -111,7 +115,9 @@ CLAIMED.update({
               "CounterSet::overwrite/insert/to_collection, CounterCollection::set_counter, RunIgnored::should_run and Divan::should_ignore: "
               "each of the 8 option fields and each counter kind resolves independently to the first level that sets it, composed as "
               "runner.overwrite(bench.overwrite(group)); a counter replaces only its own kind; the ignore decision matches the statement for "
-              "all flag/ignore combinations."),
+              "all flag/ignore combinations, also through the real run_bench_entry (bounded: skipped entries are painted as ignored and never "
+              "invoked), as are run_bench_entry's thread-list normalisation for lists of two (0 -> parallelism, ascending, duplicates collapse) and "
+              "the runner's thread option winning over the entry's."),
         note=("CLI flag / DIVAN_* env / builder populating the runner options (clap), attribute parsing (proc macro), thread-list "
               "normalisation in run_bench_entry and the defaults are undecided here."),
         technique="Kani complete (loop-free, full-domain) harnesses",
@@ -137,7 +143,7 @@ ROUND_NOTE = ("Scratch-copy additions (cfg(kani)): shims `self.sample_recorder(g
               "per-input counter closure of the loop are undecided.")
 CLAIMED.update({
     "C01": dict(
-        category="model_checking",
+        category="other",
         text=("Bounded Kani harnesses on the real sample_recorder (all three code paths: zero-sized fast path, deferred slots, inputs only) "
               "with the real unsafe closures of the Bencher entry points: instrumented values drive an online monitor asserting that each "
               "generated value is counted once before the start timestamp, passed to exactly one call, its output and (for the by-reference "
@@ -148,7 +154,7 @@ CLAIMED.update({
         technique="bounded Kani harnesses with an online monitor (bounded stand-in); complete Kani harnesses for the entry points",
         design_ref="5 C01"),
     "C02": dict(
-        category="model_checking",
+        category="other",
         text=("Same harnesses as C01, the assertions tagged C02: between the start and end timestamp of a sample only benchmarked calls "
               "happen (no generation, counting, drop or barrier wait), a full fence directly precedes and a compiler fence directly follows "
               "the start read (mirrored at the end), on two threads each waits twice before its start and once after its end, and the "
@@ -158,24 +164,40 @@ CLAIMED.update({
         technique="bounded Kani harnesses with an online monitor (bounded stand-in)",
         design_ref="5 C02"),
     "C14": dict(
-        category="model_checking",
-        text=("Kani: Divan::list_benches reaches run_action with a list action (complete; the repaired defect). Divan::run_tree_list on "
-              "group g { a, b[x, y] } with every ignore setting on group and benchmarks and every --ignored flag prints exactly one line per "
-              "case whose effective ignore passes RunIgnored::should_run, i.e. per case a run executes (bounded to that tree; the text of "
-              "the lines is not inspected)."),
-        note=("That list actions never invoke a benchmarked function rests on the short-circuit in run_bench_entry (read, not proved). The "
-              "line text, --exact round trip and clap parsing are undecided. Two genuine defects here were repaired by fix: commits."),
-        technique="Kani harnesses (one complete, one bounded) with std::io::_print replaced by a line counter",
+        category="proof",
+        text=("Verus proves on the extracted Divan::run_tree_list, for EVERY tree (no bound), one level of the walk: a benchmark gets one line "
+              "per case (each runtime argument separately) iff RunIgnored::should_run of its effective ignore (run-time option, else its own, "
+              "else the nearest enclosing group's, else false) holds - i.e. iff a run executes it; groups are never skipped themselves and the "
+              "recursive call gets exactly the inherited setting (the recursive call is reasoned about through this same contract; path "
+              "building and println! are pinned and dropped, termination not proved). A canary must fail. Kani: Divan::list_benches reaches "
+              "run_action with a list action (complete) and run_bench_entry with Action::List never invokes the benchmark function (bounded)."),
+        note=("The text of the lines, the --exact round trip and clap parsing are undecided. Both repaired defects are detected again if "
+              "they return (the pre-fix signature of run_tree_list is handled as 'nothing inherited')."),
+        technique="Verus loop invariant over a ghost event log on the extracted run_tree_list; Kani harnesses",
         design_ref="5 C14"),
+    "C17": dict(
+        category="other",
+        text=("Narrow claim. Bounded Kani harness on the real Divan::run_bench_entry: for any single label or ordered pair of labels (out of "
+              "three whose names are prefixes of one buffer, i.e. share their start address) left after filtering / sorting, each label is "
+              "dispatched with the index of that label in the ORIGINAL names slice and the benchmark receives the value stored at that "
+              "index. util::slice_ptr_index(slice, &slice[i]) == i (complete)."),
+        note=("BenchArgs::runner (building names and values in parallel, OnceLock, TypeId casts), args::bench's mem::zeroed() of the zero-sized "
+              "closure, macro-generated code and types x consts sharing one list are NOT covered. Five checks inside Kani's dealloc model are "
+              "disregarded in this harness (see evidence notes / DESIGN 2.3)."),
+        technique="bounded Kani harness on run_bench_entry with a hand-built argument runner",
+        design_ref="5 C17"),
     "C16": dict(
-        category="model_checking",
-        text=("Bounded Kani harnesses on the real comparators: integer argument names (1-2 digits, optional minus) of different value compare "
+        category="other",
+        text=("Verus (unbounded, all pairs of nodes): the real EntryTree::cmp_by_attr returns exactly the lexicographic order 'chosen attribute, then "
+              "the other two as tie-breakers', location ties broken by entry address (declaration order), over ASSUMED leaf comparisons. "
+              "Bounded Kani harnesses on the real comparators: integer argument names (1-2 digits, optional minus) of different value compare "
               "numerically under the name and kind attributes and never reach the textual comparison (the repaired defect); location order of "
               "arguments is declaration order; each attribute list has the chosen attribute first and each once (complete). Thorough tier: "
               "cmp_int / natural_cmp compare digit runs by value and natural_cmp is reflexive and antisymmetric on short strings."),
-        note=("str::parse::<f64> is stubbed to Err (CBMC cannot take dec2flt), so float names are not covered. The entry comparator "
-              "(EntryTree::cmp_by_attr), --sortr and 'sorting only permutes' are undecided."),
-        technique="bounded Kani harnesses (bounded stand-in only)",
+        note=("str::parse::<f64> is stubbed to Err (CBMC cannot take dec2flt), so float names are not covered. The leaf comparisons under "
+              "EntryTree::cmp_by_attr (kind, display name, location, address) are assumed; --sortr and 'sorting only permutes' are undecided. "
+              "Category 'other' because the name comparators are bounded only; only cmp_by_attr and with_tie_breakers are proved."),
+        technique="Verus contract on the real cmp_by_attr (proved) + bounded Kani harnesses on the name comparators (bounded stand-in)",
         design_ref="5 C16"),
 })
 
@@ -185,7 +207,6 @@ NOT_APPLICABLE = {
     "C08": "barrier ordering across threads and panic propagation: concurrency, same reasons as C06",
     "C12": "proc-macro token generation and link-section constructors: neither verifier sees macro expansion of arbitrary programs or pre-main constructors",
     "C20": "stdout content of println!-based painter over arbitrary trees; no contract within reach decides the printed text",
-    "C17": "the label->argument dispatch lives in Divan::run_bench_entry (closure- and RefCell<TreePainter>-heavy, not brought under contract) and in args::bench, which conjures the zero-sized benchmark closure with mem::zeroed() (Kani flags the zero-sized memset) after BenchArgs::runner's OnceLock/Box::leak/TypeId plumbing; the macro-generated closure is outside both verifiers. Only util::slice_ptr_index(slice, &slice[i]) == i is checked (Kani, inside C05's unit), which is too little to claim the property",
 }
 PENDING = "check not built yet (work in progress; see DESIGN.md section 5 for the plan)"
 
